@@ -725,6 +725,22 @@ class TrivialCommunity2(TrivialCommunity):
     community_id = unhexlify("c11c11c11c11c11c11c11c11c11c11c11c11c22c")
 
 
+class HiddenStopScenario(HiddenScenario):
+    """The same, but the application shuts the whole service down: `await ipv8.stop()` (ipv8_service.IPv8.stop, which
+    unregisters every overlay - the introduction point's PexCommunity included - and then awaits all unloads)."""
+
+    def __init__(self, nut: str, hops: int = 2, quick: bool = True) -> None:
+        super().__init__(nut, hops, quick)
+        self.name += "/service-stop"
+
+    def unload_awaitable(self, ctx: Ctx):  # noqa: ANN201
+        from types import SimpleNamespace  # noqa: PLC0415
+        service = ctx.ov.ipv8
+        service.state_machine_task = None
+        service.endpoint = SimpleNamespace(close=lambda: None)      # the node's socket stays: late datagrams still arrive
+        return service.stop()
+
+
 class ServiceScenario(Scenario):
     """
     A real ipv8_service.IPv8 built from a configuration dict on the node's endpoint: three overlays sharing one key
@@ -1048,6 +1064,7 @@ def all_scenarios() -> list[Scenario]:
         TunnelOnTunnelEndpoint("X"), TunnelOnTunnelEndpoint("O"), TunnelOnTunnelEndpoint("R", quick=False),
         TunnelOnStatisticsEndpoint("X"), TunnelOnStatisticsEndpoint("O"), TunnelOnStatisticsEndpoint("R", quick=False),
         HiddenScenario("O"), HiddenScenario("X"), HiddenScenario("R", quick=False),
+        HiddenStopScenario("X"), HiddenStopScenario("O", quick=False),
         ServiceScenario(0), ServiceScenario(1), ServiceScenario(2),
         BootstrapScenario("dispersy-ip"), BootstrapScenario("dispersy-dns"), BootstrapScenario("udpbroadcast"),
         BootstrapServiceScenario(),
